@@ -36,7 +36,8 @@ ASSUMPTIONS = ['children are independent OS processes: every completion order '
 FLOORS = {'par_runs': 90, 'forced_permutations_observed': 60,
           'blocks_checked': 250, 'tokens_checked': 800,
           'overlapping_runs': 50, 'alive_samples': 250,
-          'arrival_barriers_passed': 60, 'yield_lines': 2000}
+          'arrival_barriers_passed': 60, 'yield_lines': 2000,
+          'transient_read_errors': 15}
 BATCH_TIMEOUT = 900
 
 
@@ -382,12 +383,20 @@ def run_case(case):
                 # meanwhile)
                 ee['ZTR_SLOW_FLUSH_MS'] = rng.choice(['3', '8', '20'])
                 C('slow_stdout_runs')
+            if rng.random() < 0.3:
+                # one transient error while reading a child's stdout (the
+                # parent reports it and goes on reading)
+                ee['ZTR_READ_FAIL'] = '%d:%d:%s' % (
+                    rng.randint(1, k), rng.randint(1, 6),
+                    rng.choice(['EIO', 'EAGAIN', 'EINTR']))
             wp = common.run_world(spec, plan, opts, root=root, markers=True,
                                   env_extra=ee)
         finally:
             ztr_monitor.disable_yield_injection()
         C('yield_lines', ztr_monitor.COUNTERS.get('yield.lines', 0) - y0)
         C('par_runs')
+        C('transient_read_errors',
+          sum(1 for e in wp.events if e['k'] == 'read.fail'))
         C('children_with_late_stderr',
           sum(1 for e in wp.events if e['k'] == 'atexit.registered'))
         if wp.raised is not None:
@@ -458,7 +467,7 @@ def run_case(case):
         for blk in info['layers']:
             C('blocks_checked')
             body = '\n'.join(blk['lines'])
-            short = blk['name'].rsplit('.', 1)[-1]
+            short = blk['name'][len(spec['layers_module']) + 1:] if blk['name'].startswith(spec['layers_module'] + '.') else blk['name'].rsplit('.', 1)[-1]
             for name, toks in tokens.items():
                 for t in toks:
                     C('tokens_checked')
